@@ -1,19 +1,21 @@
 #!/usr/bin/env python3
-"""copies a sub-agent's deliverables (/tmp/seed2/<ID>/SEED/change<k>/) to /verif/seeded/<ID>-<k>/ with a meta.json stub"""
+"""copies a sub-agent's deliverables (/tmp/seed<round>/<ID>/SEED/change<k>/) to /verif/seeded/<ID>-r<round>-<k>/ with a meta.json stub
+usage: tools_import_seed.py <round> ID..."""
 import json, os, shutil, sys
 HERE = os.path.dirname(os.path.abspath(__file__))
-for pid in sys.argv[1:]:
+RND = sys.argv[1]
+for pid in sys.argv[2:]:
     for k in (1, 2, 3):
-        src = f"/tmp/seed2/{pid}/SEED/change{k}"
+        src = f"/tmp/seed{RND}/{pid}/SEED/change{k}"
         if not os.path.isdir(src):
             continue
-        dst = os.path.join(HERE, "seeded", f"{pid}-r2-{k}")
+        dst = os.path.join(HERE, "seeded", f"{pid}-r{RND}-{k}")
         os.makedirs(dst, exist_ok=True)
         for f in os.listdir(src):
             if os.path.isfile(os.path.join(src, f)) and not f.endswith(".pyc"):
                 shutil.copy(os.path.join(src, f), os.path.join(dst, f))
         mp = os.path.join(dst, "meta.json")
         if not os.path.exists(mp):
-            json.dump({"property": pid, "source": "independent sub-agent given only the property text and a scratch worktree",
+            json.dump({"property": pid, "round": int(RND), "source": "independent sub-agent given only the property text and a scratch worktree",
                        "needs_to_manifest": "see notes.md", "also_run": []}, open(mp, "w"), indent=1)
         print("imported", dst, sorted(os.listdir(dst)))
